@@ -54,11 +54,23 @@ def base_trees() -> Iterator[Tuple[str, Program]]:
         Cfg("X", "hex", prompt="x", defaults=[(L("0x10"), S("M2")), (L("0x20"), None)]),
     ]))
     yield rev_tree()
+    yield multidef_tree()
     yield ("bools", Program(children=[
         Cfg("A", "bool", prompt="a", defaults=[(L("y"), None)]),
         Cfg("X", "bool", prompt="x", defaults=[(L("y"), S("A"))]),
         Menu(title="m", depends=[S("X")], children=[Cfg("Y", "float", prompt="y", defaults=[(L("1.5"), None)]), Cfg("Z", "bool", prompt="z", defaults=[(L("y"), None)])]),
         Cfg("S", "bool", prompt="s", selects=[("X", None)]),
+    ]))
+
+
+def multidef_tree() -> Tuple[str, Program]:
+    # an option defined twice, each definition under its own dependency (two components describing the same option)
+    return ("multidef", Program(children=[
+        Cfg("C1", "bool", prompt="c1", defaults=[(L("y"), None)]),
+        Cfg("C2", "bool", prompt="c2"),
+        Cfg("X", "int", prompt="x one", depends=[S("C1")], defaults=[(L("10"), None)]),
+        Cfg("X", "int", prompt="x two", depends=[S("C2")]),
+        Cfg("U", "bool", prompt="u", defaults=[(L("y"), Rel("=", S("X"), L("10")))]),
     ]))
 
 
@@ -98,6 +110,9 @@ def changes(tree: str, p: Program) -> Iterator[Tuple[str, Program]]:
         q = copy.deepcopy(p); find(q, "W").defaults = [(L("6"), None)]; yield ("default_literal", q)
         q = copy.deepcopy(p); find(q, "T").defaults = [(L("y"), None)]; yield ("default_condition_source_changed", q)
         q = copy.deepcopy(p); find(q, "G").defaults = [(L("n"), None)]; find(q, "W").defaults = [(L("6"), None)]; yield ("upstream_and_own_default_changed", q)
+    elif tree == "multidef":
+        q = copy.deepcopy(p); find(q, "X").defaults = [(L("20"), None)]; yield ("default_literal", q)
+        q = copy.deepcopy(p); find(q, "C1").defaults = [(L("n"), None)]; yield ("upstream_default_changed", q)
     elif tree == "choice":
         q = copy.deepcopy(p); kgen.choices(q)[0].defaults = [("M1", None)]; yield ("choice_default_changed", q)
         q = copy.deepcopy(p); kgen.choices(q)[0].defaults = [("M3", S("A")), ("M2", None)]; yield ("choice_default_to_conditional_member", q)
@@ -116,6 +131,7 @@ def changes(tree: str, p: Program) -> Iterator[Tuple[str, Program]]:
 OPS_REV = [("set", "G", "n"), ("set", "G", "y"), ("set", "T", "y"), ("set", "W", "3"), ("set", "V", "vu"), ("reset", "G"), ("reset", "W")]
 OPS = {
     "reversed": OPS_REV,
+    "multidef": [("set", "C2", "y"), ("set", "C1", "n"), ("set", "C1", "y"), ("set", "X", "33"), ("set", "U", "n"), ("reset", "X"), ("reset", "C1")],
     "ints": [("set", "A", "y"), ("set", "A", "n"), ("set", "X", "3"), ("set", "Y", "8"), ("set", "H", "hu"), ("reset", "X"), ("reset", "A"), ("unset", "Y")],
     "choice": [("set", "A", "y"), ("set", "M1", "y"), ("set", "M2", "y"), ("set", "M3", "y"), ("set", "X", "0x33"), ("reset", "M1"), ("reset", "A")],
     "bools": [("set", "A", "n"), ("set", "X", "n"), ("set", "X", "y"), ("set", "Y", "3.5"), ("set", "S", "y"), ("set", "Z", "n"), ("reset", "X"), ("reset", "A")],
@@ -240,10 +256,10 @@ def patched_tree(tnew: Program, f_unmarked: str, marked: List[Tuple[str, str]]) 
             mism.add(name)
             if not s.value_is_valid(c.STR_TO_BOOL[v] if (s.orig_type == c.BOOL and v in ("y", "n")) else v):
                 continue
-            cfgs = [x for x in kgen.configs(cur) if x.name == name]
-            for x in cfgs:
-                x.defaults = []
-            cfgs[0].defaults = [(L(raw if s.orig_type != c.BOOL else v), None)]
+            # every definition gets it, each under its own dependencies: the option keeps the stored value wherever it is available
+            for x in kgen.configs(cur):
+                if x.name == name:
+                    x.defaults = [(L(raw if s.orig_type != c.BOOL else v), None)]
             progressed = True
             break
         if not progressed:
@@ -365,8 +381,49 @@ def run_item(item) -> common.Result:
                                     f"{label0} file after {h0}: mismatch records {sorted(rec)}, expected {sorted(exp_mism)}", case)
         if nontrivial:
             r.outcome((tree, change, f))
+    if change == "none":
+        replacing_loads(item, files, eops, r, label0)
     r.sample = {"tree": tree, "change": change, "policy": policy, "new_tree": fn["Kconfig"], "files": len(files), "example_file": files[-1][1]}
     return r
+
+
+def replacing_loads(item, files, eops, r: common.Result, label0: str) -> None:
+    """unchanged tree, one instance loading two files in a row (replace=True): the second load must give what loading the
+    second file without its default-marked entries into a FRESH instance gives -- nothing of the first file survives, and
+    the marked entries of the second pin nothing -- right after the load and after every single further edit"""
+    fn = kgen.render(item["new_prog"])
+    policy = item["policy"]
+    d_first = 1 if item["d2"] <= 2 else 2
+    firsts = [(h, t) for h, t in files if len(h) <= d_first]
+    for (hg, g), (hf, f) in itertools.product(firsts, files):
+        if g == f:
+            continue
+        fprime = strip_marked(f)
+        for E in [()] + [(o,) for o in eops]:
+            r.states += 1
+            r.transitions += 1 + len(E)
+            r.evals += 1
+            case = {"tree": item["tree"], "change": "none", "policy": policy, "old": item["old"], "new": fn, "saved_after": [list(o) for o in hf], "file": f,
+                    "first_file": g, "first_saved_after": [list(o) for o in hg], "edits": [list(o) for o in E], "d2": item["d2"]}
+            try:
+                a = impl.Inst(fn, policy=policy)
+                a.load_text(g)
+                a.load_text(f)
+                for op in E:
+                    impl.apply_op(a, op)
+                oa = (a.values(), {s.name: s.visibility for s in a.k.unique_defined_syms}, a.config_text())
+            except Exception as e:  # noqa: BLE001
+                r.violation({"kind": "exception", "exc": type(e).__name__, "site": site_of(e), "change": "none", "policy": policy, "second_load": True}, f"{label0} load(file after {hg}); load(file after {hf}); {E}: raised {type(e).__name__}: {e}", case)
+                continue
+            b = impl.Inst(fn, policy="kconfig")
+            b.load_text(fprime)
+            for op in E:
+                impl.apply_op(b, op)
+            ob = (b.values(), {s.name: s.visibility for s in b.k.unique_defined_syms}, b.config_text())
+            if oa != ob:
+                diff = {k_: (oa[0][k_], ob[0].get(k_)) for k_ in oa[0] if oa[0][k_] != ob[0].get(k_)}
+                r.violation({"kind": "second_load_differs_from_fresh_load", "policy": policy, "after_edits": bool(E), "values_differ": bool(diff)},
+                            f"{label0} load(file saved after {hg}) then load(file saved after {hf}), edits {E}: {diff or line_diff(oa[2], ob[2])} (left) vs loading the second file without marked entries into a fresh instance (right)", case)
 
 
 def kconfig_mismatches(fn, fprime: str, marked) -> set:
@@ -429,6 +486,6 @@ def replay(case) -> List[dict]:
                 continue
             item = {"tree": tname, "change": cname, "old": case["old"], "new_prog": tnew, "policy": case["policy"], "d1": 2, "d2": case["d2"]}
             r = run_item(item)
-            want_file, want_edits = case["file"], case.get("edits")
-            return [v for v in r.viols if v["case"]["file"] == want_file and v["case"].get("edits") == want_edits] or r.viols
+            want_file, want_edits, want_first = case["file"], case.get("edits"), case.get("first_file")
+            return [v for v in r.viols if v["case"]["file"] == want_file and v["case"].get("edits") == want_edits and v["case"].get("first_file") == want_first] or r.viols
     raise SystemExit("replay: tree/change not found")
